@@ -221,6 +221,7 @@ type udpConnection struct {
 	metrics      *router.InterfaceMetrics
 	receiverDone chan struct{}
 	senderDone   chan struct{}
+	senderStop   chan struct{} // closed by stop() to unblock the sender; the queue itself is never closed
 	running      atomic.Bool
 	connected    bool // If true, the underlying UDP socket is connected
 }
@@ -257,7 +258,9 @@ func (u *udpConnection) stop() {
 
 	if wasRunning {
 		u.conn.Close() // Unblock receiver
-		close(u.queue) // Unblock sender
+		// Unblock sender. The queue must not be closed: processors and BFD sessions may still be
+		// sending to it (a send on a closed channel panics).
+		close(u.senderStop)
 		<-u.receiverDone
 		<-u.senderDone
 	}
@@ -369,6 +372,16 @@ func (u *udpConnection) send(batchSize int, pool router.PacketPool) {
 	toWrite := 0
 
 	for u.running.Load() {
+		if toWrite == 0 {
+			// Block until there is something to send or we are told to stop.
+			select {
+			case p := <-queue:
+				pkts[0] = p
+				toWrite = 1
+			case <-u.senderStop:
+				continue
+			}
+		}
 		// Top-up our batch.
 		toWrite += readUpTo(queue, batchSize-toWrite, toWrite == 0, pkts[toWrite:])
 
@@ -504,6 +517,7 @@ func (u *provider) newConnectedLink(
 		metrics:      metrics, // send() needs them :-(
 		receiverDone: make(chan struct{}),
 		senderDone:   make(chan struct{}),
+		senderStop:   make(chan struct{}),
 		connected:    true,
 	}
 	u.allConnections = append(u.allConnections, c)
@@ -834,6 +848,7 @@ func (u *provider) NewInternalLink(
 		metrics:      metrics, // send() needs them :-(
 		receiverDone: make(chan struct{}),
 		senderDone:   make(chan struct{}),
+		senderStop:   make(chan struct{}),
 		connected:    false, // Might be exclusive to internal links, but still not connected.
 	}
 
